@@ -53,6 +53,7 @@ class HAPResponse:
         self.shared_key = None
         self.task: Optional[asyncio.Future] = None
         self.pairing_changed = False
+        self.pairing_removed = False
 
     def __repr__(self):
         """Return a human readable view of the response."""
@@ -760,6 +761,10 @@ class HAPServerHandler:
 
         data = tlv.encode(HAP_TLV_TAGS.SEQUENCE_NUM, HAP_TLV_STATES.M2)
         self._send_tlv_pairing_response(data)
+        # Sessions of controllers that are no longer paired are
+        # torn down by the protocol once this response is sent
+        assert self.response is not None  # nosec
+        self.response.pairing_removed = True
 
         if not self.state.paired_clients and was_paired:
             # Only update the announcement when the last
